@@ -35,15 +35,18 @@ def sio_mod():
     return socketio
 
 
-def make_object(kind):
+def make_object(kind, config=None):
+    """`config`: constructor arguments that could influence the registry (servers: namespaces=, always_connect=,
+    async_handlers=).  The property does not mention them: resolution is a function of what was registered."""
     s = sio_mod()
+    cfg = dict(config or {})
     if kind == 'server':
-        return s.Server(async_mode='threading')
+        return s.Server(async_mode='threading', **cfg)
     if kind == 'asyncServer':
-        return s.AsyncServer(async_mode='asgi')
+        return s.AsyncServer(async_mode='asgi', **cfg)
     if kind == 'client':
-        return s.Client(handle_sigint=False)
-    return s.AsyncClient(handle_sigint=False)
+        return s.Client(handle_sigint=False, **cfg)
+    return s.AsyncClient(handle_sigint=False, **cfg)
 
 
 def ns_class(kind):
@@ -428,6 +431,20 @@ def slot_rids(sh, ns, ev):
             'clsNs': sh.cls.get(ns, {}).get(ev), 'clsStar': sh.cls.get('*', {}).get(ev)}
 
 
+def shadow_registry(sh):
+    """The registry in the model's input format, built from what was REGISTERED (never from the object's own
+    tables): sharing or copying of tables inside the object — between namespaces, between instances — then shows
+    up as a difference between model and implementation."""
+    fn = [[k1, k2] for (k1, k2) in sh.fn]
+    cls = list(sh.cls)
+    attr = [[k, 'on_' + ev] for k, ms in sh.cls.items() for ev in sorted(ms)]
+    return fn, cls, attr
+
+
+def has_own(sh, ns):
+    return ns in sh.cls or any(k1 == ns for (k1, _k2) in sh.fn)
+
+
 def oracle_dyn(kind, sh, ns, ev):
     """The documented precedence table, first match wins, on the registrations made so far."""
     reserved = ev in DOC_RESERVED[kind]
@@ -496,25 +513,47 @@ def apply_step(obj, kind, log, sh, live, step, co, serial):
 
 
 def run_evolving(sc, loop):
-    """Execute a scenario on ONE real object; -> one record per dispatch."""
+    """Execute a scenario on ONE real object (or, with `{'op': 'new'}` steps, on several objects of the same
+    class built one after the other in this process, each with its own shadow registry; a registration names
+    its object with 'obj', every dispatch round goes to every object); -> one record per dispatch.
+    `sc['config']`: constructor arguments of the objects.  `sc['registry_from'] == 'shadow'`: the model is
+    asked about the registrations made (shadow), not about the tables read back from the object."""
     kind = sc['kind']
-    obj, log, sh, live = make_object(kind), Log(), Shadow(), {}
+    cfg = sc.get('config')
+    log = Log()             # one log for all objects: a recorder of ANOTHER object running is seen too
+    objs = []               # (object, shadow registry, live class-based namespaces)
+    declared = cfg.get('namespaces') if isinstance(cfg, dict) else None
+    declared = declared if isinstance(declared, list) else []
+    from_shadow = sc.get('registry_from') == 'shadow'
     records = []
     n = [0]
 
     def dispatch(step_no, idxs):
-        for p in idxs:
-            ns, ev = sc['probes'][p]
-            n[0] += 1
-            args = ('sid-1', {'k': [1, 2]}, n[0])
-            impl = observe(obj, log, ev, ns, args, loop)
-            records.append({'step': step_no, 'probe': p, 'ns': ns, 'ev': ev, 'args': args, 'impl': impl,
-                            'reg': read_registry(obj), 'oracle': oracle_dyn(kind, sh, ns, ev),
-                            'rids': slot_rids(sh, ns, ev)})
+        for oi, (obj, sh, _live) in enumerate(objs):
+            for p in idxs:
+                ns, ev = sc['probes'][p]
+                n[0] += 1
+                args = ('sid-1', {'k': [1, 2]}, n[0])
+                impl = observe(obj, log, ev, ns, args, loop)
+                o = oracle_dyn(kind, sh, ns, ev)
+                records.append({'step': step_no, 'probe': p, 'obj': oi, 'ns': ns, 'ev': ev, 'args': args,
+                                'impl': impl, 'reg': shadow_registry(sh) if from_shadow else read_registry(obj),
+                                'oracle': o, 'rids': slot_rids(sh, ns, ev),
+                                # a declared namespace with nothing of its own while a sibling has something
+                                'sibling': ns in declared and not has_own(sh, ns) and any(
+                                    d != ns and has_own(sh, d) for d in declared),
+                                # another instance would answer this pair differently
+                                'foreign': any(oracle_dyn(kind, sh2, ns, ev) != o
+                                               for j, (_o, sh2, _l) in enumerate(objs) if j != oi)})
+    objs.append((make_object(kind, cfg), Shadow(), {}))
     dispatch(-1, sc.get('first', []))
     for i, step in enumerate(sc['steps']):
-        co = {'sync': False, 'coroutine': True}.get(sc['mode'], bool(step.get('co')))
-        apply_step(obj, kind, log, sh, live, step, co, i)
+        if step['op'] == 'new':
+            objs.append((make_object(kind, step.get('config', cfg)), Shadow(), {}))
+        else:
+            co = {'sync': False, 'coroutine': True}.get(sc['mode'], bool(step.get('co')))
+            obj, sh, live = objs[step.get('obj', 0)]
+            apply_step(obj, kind, log, sh, live, step, co, i)
         dispatch(i, step.get('dispatch', []))
     return records
 
@@ -536,7 +575,13 @@ def judge_evolving(ctx, sc, records, answers, stats):
         ok_model = same_view(rec['impl'], want_model)
         ok_spec = same_view(want_oracle, want_spec)
         now = (o.get('slot'), o.get('rid'), o['res'])
-        p = rec['probe']
+        p = (rec.get('obj', 0), rec['probe'])
+        if rec.get('sibling'):
+            stats['sibling_dispatches'] = stats.get('sibling_dispatches', 0) + 1
+            ctx.count('configured.dispatch.declared_namespace_without_handlers_beside_one_with.' + o['res'])
+        if rec.get('foreign'):
+            stats['foreign_dispatches'] = stats.get('foreign_dispatches', 0) + 1
+            ctx.count('configured.dispatch.another_instance_would_answer_differently.' + o['res'])
         ctx.count('evolving.res.' + o['res'] + ('.' + o['slot'] if 'slot' in o else ''))
         if p in last:
             if last[p] == now:
@@ -555,16 +600,19 @@ def judge_evolving(ctx, sc, records, answers, stats):
             continue
         reported = True
         rep = {'evolving': sc,
-               'failed_at': {'after_step': rec['step'], 'probe': [rec['ns'], rec['ev']],
+               'failed_at': {'after_step': rec['step'], 'probe': [rec['ns'], rec['ev']], 'object': rec.get('obj', 0),
                              'registration': sc['steps'][rec['step']] if rec['step'] >= 0 else None},
                'impl': repr(rec['impl']), 'model': repr(m), 'oracle': repr(o),
                'registry_at_that_moment': {'fn': rec['reg'][0], 'cls': rec['reg'][1]},
                'history_of_this_pair': history[p]}
         if not ok_oracle:
             stats['oracle_fail'] += 1
-            ctx.violation('oracle', 'documented precedence violated by %s._trigger_event(%r, %r) after the registry '
-                          'changed (registration %r): expected %r, observed %r'
-                          % (kind, rec['ev'], rec['ns'], rep['failed_at']['registration'], want_oracle, rec['impl']), rep)
+            ctx.violation('oracle', 'documented precedence violated by %s%s._trigger_event(%r, %r) after the registry '
+                          'changed (registration %r%s): expected %r, observed %r'
+                          % (kind, '(**%r)' % sc['config'] if sc.get('config') else '', rec['ev'], rec['ns'],
+                             rep['failed_at']['registration'],
+                             ', dispatched on object %d' % rec['obj'] if rec.get('obj') else '',
+                             want_oracle, rec['impl']), rep)
         if not ok_model:
             stats['model_fail'] += 1
             ctx.violation('correspondence', 'Sio.Dispatch.resolve on the registry of the moment differs from %s.'
@@ -590,6 +638,17 @@ def execute_evolving(ctx, scenarios, loop, stats, samples):
         ctx.count('evolving.kind.' + sc['kind'])
         for st in sc['steps']:
             ctx.count('evolving.registration.' + st['op'] + ('.' + st['via'] if 'via' in st else ''))
+        if sc['tag'].startswith('configured'):
+            stats['configured_scenarios'] = stats.get('configured_scenarios', 0) + 1
+            stats['configured_cases'] = stats.get('configured_cases', 0) + len(r)
+            cfg = sc.get('config') or {}
+            nsp = cfg.get('namespaces')
+            ctx.count('configured.namespaces.' + ('default' if nsp is None else 'star' if nsp == '*'
+                                                  else 'list%d' % len(nsp)))
+            for k in ('always_connect', 'async_handlers'):
+                if k in cfg:
+                    ctx.count('configured.%s=%r' % (k, cfg[k]))
+            ctx.count('configured.objects.%d' % (1 + sum(st['op'] == 'new' for st in sc['steps'])))
         if sc['tag'] == 'random' and len(samples) < 2 and len(sc['steps']) >= 5:
             samples.append({'scenario': sc, 'dispatches': [
                 {'after_step': x['step'], 'pair': [x['ns'], x['ev']], 'observed': repr(x['impl'])} for x in r[:12]]})
@@ -724,6 +783,133 @@ def random_scenario(rng):
             'steps': fixed}
 
 
+# ---------------------------------------------------------------------------------------------------
+# Constructor configurations and several instances.  Resolution is a function of what was REGISTERED on
+# the object the event arrives at; the constructor arguments (declared namespaces, always_connect,
+# async_handlers) and other objects living in the process are not in the statement.  The scenarios below
+# are evolving-registry scenarios on objects built with those arguments, with handlers registered for
+# SOME of the declared namespaces and dispatches on the OTHERS (and on an undeclared one), and with a
+# second object created before / between / after the registrations on the first.  Here the model is
+# asked about the shadow registry (the registrations made), not about the object's tables.
+# ---------------------------------------------------------------------------------------------------
+
+SERVER_CONFIGS = [{'namespaces': ['/a', '/b']}, {'namespaces': ['/a', '/b', '/c']},
+                  {'namespaces': ['/b', '/a'], 'always_connect': True, 'async_handlers': False},
+                  {'namespaces': ['/a']}, {'namespaces': '*'}, {'always_connect': True}]
+
+
+def configured_scenarios(ctx):
+    for kind in KINDS:
+        server = kind in ('server', 'asyncServer')
+        for ci, cfg in enumerate(SERVER_CONFIGS if server else [{}]):
+            d = cfg.get('namespaces')
+            d = list(d) if isinstance(d, list) else ['/a', '/b']
+            nss = d + ['/undeclared']
+            second = nss[1]
+            for ei, ev in enumerate(('my event', 'disconnect', 'connect')):
+                for mode in (('sync', 'coroutine') if ev == 'my event' else (('sync', 'coroutine')[(ci + ei) % 2],)):
+                    probes = [[n, ev] for n in nss] + [[second, ev + '~other']]
+                    allp = list(range(len(probes)))
+                    base = {'kind': kind, 'mode': mode, 'probes': probes, 'first': [], 'config': cfg,
+                            'registry_from': 'shadow', 'tag': 'configured'}
+                    # something registered for the first declared namespace only, everything dispatched;
+                    # then something for the second one
+                    for a in SLOTS:
+                        for b in SLOTS:
+                            if a not in ('fnNsEv', 'fnNsStar', 'clsNs') and b not in ('fnNsEv', 'fnNsStar', 'clsNs'):
+                                continue
+                            via = VIAS[(SLOTS.index(a) + SLOTS.index(b) + ci) % 3]
+                            yield dict(base, steps=[dict(slot_step(a, nss[0], ev, via=via), dispatch=allp),
+                                                    dict(slot_step(b, second, ev, via=via), dispatch=allp)])
+        # two instances: registrations on one, dispatches on both; the second one born before or after them
+        for cfg in ([{'namespaces': ['/a', '/b']}, {}] if server else [{}]):
+            for mode in ('sync', 'coroutine'):
+                for ev in ('my event', 'disconnect'):
+                    probes = [['/a', ev], ['/b', ev], ['/a', ev + '~other']]
+                    allp = list(range(len(probes)))
+                    base = {'kind': kind, 'mode': mode, 'probes': probes, 'first': allp, 'config': cfg,
+                            'registry_from': 'shadow', 'tag': 'configured_instances'}
+                    for a in SLOTS:
+                        reg0 = dict(slot_step(a, '/a', ev), dispatch=allp, obj=0)
+                        reg1 = dict(slot_step(SLOTS[(SLOTS.index(a) + 1) % 6], '/a', ev, via='decorator'),
+                                    dispatch=allp, obj=1)
+                        new = {'op': 'new', 'dispatch': allp}
+                        yield dict(base, steps=[reg0, new, reg1])
+                        yield dict(base, steps=[new, reg0, reg1])
+                        yield dict(base, steps=[new, reg1, reg0])
+
+
+def random_configured(rng):
+    kind = rng.choice(KINDS)
+    server = kind in ('server', 'asyncServer')
+    names = rng.sample(['/', '/a', '/b', '/c', '/chat'], 3)
+    extra = gen_ns(rng)
+    if extra not in names and extra != '*':
+        names.append(extra)
+    declared = names[:rng.randint(1, 3)]
+    cfg = {}
+    if server:
+        r = rng.random()
+        if r < 0.12:
+            pass
+        elif r < 0.24:
+            cfg['namespaces'] = '*'
+        else:
+            cfg['namespaces'] = list(declared)
+        if rng.random() < 0.3:
+            cfg['always_connect'] = rng.random() < 0.7
+        if rng.random() < 0.3:
+            cfg['async_handlers'] = rng.random() < 0.3
+    evs = []
+    while len(evs) < 2:
+        x = gen_name(rng, kind)
+        if x not in evs:
+            evs.append(x)
+    # one declared namespace gets no function handler of its own
+    quiet = rng.choice(declared[1:] or declared)
+    loud = [x for x in names if x != quiet]
+    steps = []
+    for _ in range(rng.randint(2, 6)):
+        r = rng.random()
+        star = ['*'] if rng.random() < 0.15 else []
+        classes = sorted(set(st['ns'] for st in steps if st['op'] == 'cls'))
+        if r < 0.6:
+            steps.append({'op': 'on', 'ns': rng.choice(loud + star), 'ev': rng.choice(evs + ['*']),
+                          'via': rng.choice(VIAS)})
+        elif r < 0.9 or not classes:
+            steps.append({'op': 'cls', 'ns': rng.choice(loud + [quiet] + star),
+                          'methods': [e for e in evs if rng.random() < 0.7]})
+        else:
+            steps.append({'op': 'setattr', 'ns': rng.choice(classes), 'ev': rng.choice(evs)})
+    n_obj = 1
+    if rng.random() < 0.35:
+        steps.insert(rng.randint(0, len(steps)), {'op': 'new'})
+    probes = [[a, b] for a in names for b in evs]
+    rng.shuffle(probes)
+    probes = [[quiet, evs[0]]] + [x for x in probes if x != [quiet, evs[0]]][:5]
+    allp = list(range(len(probes)))
+    seen, fixed = {}, []
+    for st in steps:
+        st = dict(st)
+        if st['op'] == 'new':
+            n_obj += 1
+        else:
+            st['obj'] = rng.randrange(n_obj)
+            mine = seen.setdefault(st['obj'], set())
+            if st['op'] == 'cls':
+                mine.add(st['ns'])
+            if st['op'] == 'setattr' and st['ns'] not in mine:
+                st = {'op': 'cls', 'ns': st['ns'], 'methods': [st['ev']], 'obj': st['obj']}
+                mine.add(st['ns'])
+            if st['op'] == 'on' and st['ns'] == '/' and rng.random() < 0.3:
+                st['ns'] = None
+            st['co'] = int(rng.random() < 0.5)
+        st['dispatch'] = allp
+        fixed.append(st)
+    return {'kind': kind, 'mode': rng.choice(['sync', 'coroutine', 'mixed']), 'probes': probes, 'first': allp,
+            'tag': 'configured_random', 'config': cfg, 'registry_from': 'shadow', 'steps': fixed}
+
+
 def prepare(ctx):
     """called by the runner before the driver is built"""
     try:
@@ -770,7 +956,7 @@ def run(ctx):
 
     loop = asyncio.new_event_loop()
     stats = {'oracle_fail': 0, 'model_fail': 0, 'evolving_cases': 0, 'takeover': 0, 'replaced': 0}
-    nontrivial, samples, evo_samples = set(), [], []
+    nontrivial, samples, evo_samples, conf_samples = set(), [], [], []
     try:
         ex = list(exhaustive_cases(reserved_by_kind))
         execute(ctx, ex, loop, stats, nontrivial, samples)
@@ -783,6 +969,12 @@ def run(ctx):
         evo += [random_scenario(ctx.rng) for _ in range(ctx.scale(1200, 20000))]
         for at in range(0, len(evo), 2000):
             execute_evolving(ctx, evo[at:at + 2000], loop, stats, evo_samples)
+        # constructor configurations x instances (registry handed to the model = what was registered)
+        evo_stats = dict(stats)
+        conf = list(configured_scenarios(ctx))
+        conf += [random_configured(ctx.rng) for _ in range(ctx.scale(400, 10000))]
+        for at in range(0, len(conf), 2000):
+            execute_evolving(ctx, conf[at:at + 2000], loop, stats, conf_samples)
     finally:
         loop.close()
     if ctx.thorough:
@@ -814,13 +1006,13 @@ def run(ctx):
                 'recorders}; for `disconnect` additionally handlers with the legacy signature (one parameter fewer: '
                 'TypeError retry path, function handlers and class methods); plus random namespaces, event names (reserved ones included), argument lists. '
                 'non-trivial = at least two of the six targets registered (precedence decides)',
-        'samples': samples, 'traces_validated_against_impl': len(ex) + len(rnd) + stats['evolving_cases'],
+        'samples': samples, 'traces_validated_against_impl': len(ex) + len(rnd) + stats['evolving_cases'],      # (configured ones included)
         'oracle_failures': stats['oracle_fail'], 'model_disagreements': stats['model_fail'],
         'evolving_registry_scenarios': len(evo), 'evolving_registry_exhaustive_scenarios': n_evo_ex,
         'evolving_registry_random_scenarios': len(evo) - n_evo_ex,
-        'evolving_registry_cases': stats['evolving_cases'],
-        'evolving_registry_takeovers': stats['takeover'],
-        'evolving_registry_replacements': stats['replaced'],
+        'evolving_registry_cases': evo_stats['evolving_cases'],
+        'evolving_registry_takeovers': evo_stats['takeover'],
+        'evolving_registry_replacements': evo_stats['replaced'],
         'evolving_rule': 'one real object per scenario; registrations (on() as call / decorator, event(), register_namespace(), '
                          'a method added to a registered class-based namespace, the same key again with a new object) '
                          'interleaved with dispatches of the same (namespace, event) pairs; every dispatch compared with '
@@ -832,6 +1024,18 @@ def run(ctx):
                          'at its previous dispatch; replacement = same slot, new object.  No unregister API exists.'
                          % ('all 720' if ctx.thorough else '16 sampled'),
         'evolving_samples': evo_samples,
+        'configured_scenarios': stats.get('configured_scenarios', 0),
+        'configured_cases': stats.get('configured_cases', 0),
+        'configured_dispatches_on_declared_sibling': stats.get('sibling_dispatches', 0),
+        'configured_dispatches_instances_differ': stats.get('foreign_dispatches', 0),
+        'configured_rule': 'evolving-registry scenarios on objects built with constructor arguments: Server/AsyncServer '
+                           'namespaces= default | "*" | list of 1-3 names, always_connect, async_handlers; handlers '
+                           'registered for some declared namespaces, every round dispatched on all of them and on an '
+                           'undeclared one; a second instance built before/between/after the registrations, each instance '
+                           'judged by its own registrations.  The model is asked about the registrations made (shadow '
+                           'registry), not about the tables of the object.  declared_sibling = dispatch on a declared '
+                           'namespace with nothing registered while another declared namespace has something; '
+                           'instances_differ = another live instance would answer the same pair differently',
     })
     ctx.assumptions += ['namespace and event names are str without lone surrogates ("*" included for both)',
                         'handlers are truthy callables accepting the arguments they are given',
@@ -850,6 +1054,9 @@ def replay_evolving(sc):
     answers = C.batch('dispatch', [model_op({'kind': sc['kind'], 'ns': x['ns'], 'ev': x['ev']}, x['reg'])
                                    for x in records])
     bad, at = 0, None
+    many = any(st['op'] == 'new' for st in sc['steps'])
+    if sc.get('config'):
+        print('constructor arguments: %r' % (sc['config'],))
     for rec, ans in zip(records, answers):
         if rec['step'] != at:
             at = rec['step']
@@ -861,8 +1068,9 @@ def replay_evolving(sc):
         ok = same_view(rec['impl'], want)
         ok_m = same_view(rec['impl'], view_dyn(sc['kind'], m, rec['rids'].get(m.get('slot')), rec['args']))
         bad += not ok
-        print('  %s._trigger_event(%r, %r): oracle %s, model %s' % (sc['kind'], rec['ev'], rec['ns'],
-              'holds' if ok else 'VIOLATED', 'agrees' if ok_m else 'DIFFERS'))
+        print('  %s%s._trigger_event(%r, %r): oracle %s, model %s' % (
+            sc['kind'], '#%d' % rec['obj'] if many else '', rec['ev'], rec['ns'],
+            'holds' if ok else 'VIOLATED', 'agrees' if ok_m else 'DIFFERS'))
         if not (ok and ok_m):
             print('      implementation :', rec['impl'])
             print('      oracle expects :', want)
